@@ -9,6 +9,7 @@
      EIP-3651 (warm coinbase)                   EIP-3860 (initcode size / word cost)
      EIP-4844 (blob gas fee, versioned hashes)  EIP-7623 (calldata floor, Prague)
      EIP-7825 (transaction gas cap 2^24, Osaka) EIP-7594 (at most 6 blobs per tx, Osaka)
+     EIP-7702 (set-code transactions, Prague)
    on top of the EVM core of C27 (EVM/Step.v, EVM/Interp.v — not modified).  It is NOT a
    transcription of /repo/core/state_transition.go; it was cross-read against it
    (preCheck, buyGas, execute, settleGas) for one purpose only: the ORDER in which
@@ -19,15 +20,21 @@
    The intrinsic gas and the EIP-7623 floor are the specification functions of
    property C35 (Gas/Fees.v: spec_intrinsic_gas, spec_floor_data_gas), not redefined.
 
-   EIP-7702 set-code transactions are NOT in the specification: the EVM core has no
-   delegation resolution.  Such transactions are not generated.
+   EIP-7702 set-code transactions (type 4): the authorisation list is processed after
+   the sender's nonce increment (chain id, nonce bound, recovered authority, code empty
+   or a delegation, nonce match, refund 25000 - 12500 for an existing authority, set or
+   clear the delegation designator, bump the authority's nonce), invalid tuples are
+   skipped, nothing of it is rolled back when the execution fails; the delegation
+   target of the destination is warm.  The recovered authority is part of the tuple
+   (signature recovery is C03's subject; None = invalid signature).  Delegation
+   resolution inside the CALL family is the EVM core's (Step.v resolve_code).
 
    Numbers are unbounded [N]; every uint256/uint64 overflow test of a client ends in
    the same rejection as the comparison in unbounded numbers (see [buy_gas]).
 
    Names other families rely on (keep stable):
      tx tfork benv tx_err tx_receipt intrinsic_gas floor_gas eff_price validate_tx
-     buy_gas prepare_al top_call_al top_create_al exec_tx settle apply_tx finalise
+     auth apply_auth buy_gas prepare_al top_call_al top_create_al exec_tx settle apply_tx finalise
    No proofs in this file. *)
 From Coq Require Import List NArith ZArith Bool.
 From GV Require Import Lib.Bytes EVM.Word256 EVM.Memory EVM.Gas EVM.State EVM.Instr EVM.Step EVM.Interp.
@@ -38,8 +45,12 @@ Local Open Scope N_scope.
 (* ------------------------------------------------------------------ *)
 (* transactions, rule sets, block environment *)
 
-(* tx_type: 0 legacy, 1 EIP-2930, 2 EIP-1559, 3 EIP-4844.  For types 0 and 1 the gas
-   price is both the fee cap and the tip cap (EIP-1559, "legacy transactions"). *)
+(* EIP-7702 authorisation tuple; [au_authority] = the address recovered from the
+   signature (None = the signature is invalid) *)
+Record auth := mk_auth { au_chain : N; au_address : N; au_nonce : N; au_authority : option N }.
+
+(* tx_type: 0 legacy, 1 EIP-2930, 2 EIP-1559, 3 EIP-4844, 4 EIP-7702.  For types 0 and 1
+   the gas price is both the fee cap and the tip cap (EIP-1559, "legacy transactions"). *)
 Record tx := mk_tx {
   tx_type : N;
   tx_from : N;                         (* the recovered sender; signatures are C03's subject *)
@@ -52,7 +63,8 @@ Record tx := mk_tx {
   tx_data : list N;
   tx_access : list (N * list N);       (* EIP-2930 access list *)
   tx_blobfeecap : N;                   (* max_fee_per_blob_gas *)
-  tx_blobhashes : list N               (* versioned hashes (type 3) *)
+  tx_blobhashes : list N;              (* versioned hashes (type 3) *)
+  tx_auths : list auth                 (* authorisation list (type 4) *)
 }.
 
 (* what the transaction level distinguishes between Cancun / Prague / Osaka *)
@@ -89,7 +101,9 @@ Inductive tx_err :=
 | TE_IntrinsicGas
 | TE_FloorDataGas                                       (* EIP-7623 *)
 | TE_InsufficientFundsForTransfer
-| TE_BlobGasLimitReached.                               (* block blob gas limit (Block.v) *)
+| TE_BlobGasLimitReached                                (* block blob gas limit (Block.v) *)
+| TE_EmptyAuthList | TE_SetCodeCreate                   (* EIP-7702 *)
+| TE_TxTypeNotSupported.                                (* type 4 before Prague *)
 
 (* ------------------------------------------------------------------ *)
 (* gas of a transaction before execution *)
@@ -104,11 +118,12 @@ Definition pre_amsterdam : Fees.spec_forks :=
 
 Definition is_create (t : tx) : bool := match tx_to t with None => true | Some _ => false end.
 
-(* EIP-2 / 2028 / 2930 / 3860: Gas/Fees.v spec_intrinsic_gas (no authorisations) *)
+(* EIP-2 / 2028 / 2930 / 3860 / 7702: Gas/Fees.v spec_intrinsic_gas *)
 Definition intrinsic_gas (t : tx) : N :=
   let z := count_zero (tx_data t) in
   let nz := lenN (tx_data t) - z in
-  Z.to_N (Fees.spec_intrinsic_gas pre_amsterdam (is_create t) false (negb (tx_value t =? 0)) 0
+  Z.to_N (Fees.spec_intrinsic_gas pre_amsterdam (is_create t) false (negb (tx_value t =? 0))
+            (Z.of_N (lenN (tx_auths t)))
             (Z.of_N z) (Z.of_N nz) (Z.of_N (lenN (tx_access t))) (Z.of_N (access_keys (tx_access t)))).
 
 (* EIP-7623: Gas/Fees.v spec_floor_data_gas *)
@@ -124,10 +139,12 @@ Definition eff_price (b : benv) (t : tx) : N :=
 
 Definition blob_gas (t : tx) : N := GAS_PER_BLOB * lenN (tx_blobhashes t).
 
-(* EIP-7702: 0xef0100 || address *)
+(* EIP-7702: 0xef0100 || address (Step.parse_delegation) *)
 Definition is_delegation (code : list N) : bool :=
-  (length code =? 23)%nat &&
-  match code with 239 :: 1 :: 0 :: _ => true | _ => false end.
+  match parse_delegation code with Some _ => true | None => false end.
+Definition delegation_code (a : N) : list N := 239 :: 1 :: 0 :: addr_bytes a.
+Definition PER_EMPTY_ACCOUNT_COST : N := 25000.
+Definition PER_AUTH_BASE_COST : N := 12500.
 
 (* the version byte of a versioned hash *)
 Definition hash_version (h : N) : N := h / 2 ^ 248.
@@ -139,7 +156,8 @@ Definition validate_tx (tf : tfork) (b : benv) (w : world) (gas_available : N) (
   : option tx_err :=
   let from := tx_from t in
   let st_nonce := get_nonce w from in
-  if st_nonce <? tx_nonce t then Some TE_NonceTooHigh
+  if (tx_type t =? 4) && negb (fk_7702 (tf_evm tf)) then Some TE_TxTypeNotSupported
+  else if st_nonce <? tx_nonce t then Some TE_NonceTooHigh
   else if tx_nonce t <? st_nonce then Some TE_NonceTooLow
   else if 2 ^ 64 <=? st_nonce + 1 then Some TE_NonceMax
   else if tf_gascap tf && (TX_MAX_GAS <? tx_gas t) then Some TE_GasLimitTooHigh
@@ -162,7 +180,9 @@ Definition validate_tx (tf : tfork) (b : benv) (w : world) (gas_available : N) (
          else None) with
   | Some e => Some e
   | None =>
-      if is_create t && (max_initcode_size <? lenN (tx_data t)) then Some TE_InitCodeSize
+      if (tx_type t =? 4) && is_create t then Some TE_SetCodeCreate
+      else if (tx_type t =? 4) && (match tx_auths t with [] => true | _ => false end) then Some TE_EmptyAuthList
+      else if is_create t && (max_initcode_size <? lenN (tx_data t)) then Some TE_InitCodeSize
       else if gas_available <? tx_gas t then Some TE_GasLimitReached
       else if get_balance w from <? tx_gas t * tx_feecap t + tx_value t + blob_gas t * tx_blobfeecap t
       then Some TE_InsufficientFunds
@@ -193,11 +213,42 @@ Definition prepare_al (e : env) (w : world) (dst : option N) (precompiles : list
   mk_world (w_accounts w) [] (warm ++ map fst al)
            (flat_map (fun x => map (fun k => (fst x, k)) (snd x)) al) 0 [] [] [].
 
-(* Interp.top_call with a transaction access list *)
+(* EIP-7702: one authorisation tuple; an invalid tuple is skipped (the authority stays
+   warm once it has been recovered) *)
+Definition apply_auth (chainid : N) (w : world) (a : auth) : world :=
+  if negb ((au_chain a =? 0) || (au_chain a =? chainid)) then w
+  else if 2 ^ 64 <=? au_nonce a + 1 then w
+  else
+    match au_authority a with
+    | None => w
+    | Some authority =>
+        let w1 := warm_addr w authority in
+        let code := get_code w1 authority in
+        if (match code with [] => false | _ => true end) && negb (is_delegation code) then w1
+        else if negb (get_nonce w1 authority =? au_nonce a) then w1
+        else
+          let w2 := if is_empty w1 authority then w1
+                    else add_refund w1 (PER_EMPTY_ACCOUNT_COST - PER_AUTH_BASE_COST) in
+          let w3 := set_code w2 authority
+                             (if au_address a =? 0 then [] else delegation_code (au_address a)) in
+          set_nonce w3 authority (au_nonce a + 1)
+    end.
+
+(* Interp.top_call with a transaction access list and an authorisation list: the
+   authorisations are applied to the prepared state, then the delegation target of the
+   destination (if any) is warm, then the message call runs; a failing call reverts to
+   the state AFTER the authorisations *)
 Definition top_call_al (e : env) (w : world) (precompiles : list N) (al : list (N * list N))
-           (to value : N) (input : list N) (gas : N) : tx_result :=
+           (auths : list auth) (to value : N) (input : list N) (gas : N) : tx_result :=
   let w0 := prepare_al e w (Some to) precompiles al in
-  let r := evm_call (run (pred max_depth_fuel)) e K_CALL (e_origin e) 0 0 false 0 w0 to value input gas in
+  let w1 := fold_left (apply_auth (e_chainid e)) auths w0 in
+  let w2 := if fk_7702 (e_fork e) then
+              match parse_delegation (get_code w1 to) with
+              | Some t => warm_addr w1 t
+              | None => w1
+              end
+            else w1 in
+  let r := evm_call (run (pred max_depth_fuel)) e K_CALL (e_origin e) 0 0 false 0 w2 to value input gas in
   mk_tx_result (status_of (cr_err r)) (cr_ret r) (cr_gas r) to (cr_w r).
 
 (* Interp.top_create with a transaction access list *)
@@ -223,7 +274,7 @@ Definition exec_tx (tf : tfork) (b : benv) (w : world) (t : tx) : tx_result :=
   match tx_to t with
   | Some to =>
       let w2 := set_nonce w1 (tx_from t) (get_nonce w1 (tx_from t) + 1) in
-      top_call_al e w2 (tf_precompiles tf) (tx_access t) to (tx_value t) (tx_data t) gas
+      top_call_al e w2 (tf_precompiles tf) (tx_access t) (tx_auths t) to (tx_value t) (tx_data t) gas
   | None =>
       top_create_al e w1 (tf_precompiles tf) (tx_access t) (tx_value t) (tx_data t) gas
   end.
